@@ -1,0 +1,36 @@
+//go:build verif
+// +build verif
+
+package isaacdatabase
+
+// verifPoolGate is called in TempPool.SetBallot and TempPool.SetProposal
+// between the Exists check and the write ("setballot:checked",
+// "setproposal:checked"; argument: the storage key). The conformance harness
+// (/verif, property C24) installs a function that, for forced schedules,
+// blocks the calling goroutine until the schedule releases it. No behaviour
+// is added; without the verif build tag the calls are empty.
+var verifPoolGate = func(string, ...interface{}) {}
+
+// VerifSetPoolGate installs (or, with nil, removes) the gate function.
+func VerifSetPoolGate(f func(point string, args ...interface{})) {
+	if f == nil {
+		f = func(string, ...interface{}) {}
+	}
+
+	verifPoolGate = f
+}
+
+// VerifCleanBallots runs the ballot pass of the periodic clean-up (startClean).
+func (db *TempPool) VerifCleanBallots() (int, error) {
+	return db.cleanBallots()
+}
+
+// VerifCleanProposals runs the proposal pass of the periodic clean-up (startClean).
+func (db *TempPool) VerifCleanProposals() (int, error) {
+	return db.cleanProposals()
+}
+
+// VerifCleanDepths returns the configured clean-up depths (ballots, proposals).
+func (db *TempPool) VerifCleanDepths() (ballots, proposals int) {
+	return db.cleanRemovedBallotDeep, db.cleanRemovedProposalDeep
+}
